@@ -24,7 +24,7 @@ FORBIDDEN = re.compile(r'\b(sorry|admit|native_decide|bv_decide|implemented_by|u
 NCPU = os.cpu_count() or 4
 PROBE_TIMEOUT = [300]   # seconds per shard; bin/check raises it for the thorough tier
 
-GOENV = dict(os.environ, GOFLAGS='-mod=mod', GOPROXY='off', GOSUMDB='off', GOTOOLCHAIN='local',
+GOENV = dict(os.environ, GORACE='halt_on_error=1 exitcode=66', GOFLAGS='-mod=mod', GOPROXY='off', GOSUMDB='off', GOTOOLCHAIN='local',
              CGO_CFLAGS='-w', GOMEMLIMIT='4GiB')
 
 
@@ -48,9 +48,19 @@ def build_harness(pkgs=None):
     s2 = re.sub(r'replace gopkg.in/src-d/hercules.v10 => \S+', 'replace gopkg.in/src-d/hercules.v10 => ' + REPO, s)
     if s2 != s:
         open(gomod, 'w').write(s2)
+    race = [p[:-5] for p in (pkgs or []) if p.endswith('.race')]
+    if pkgs:
+        pkgs = [p for p in pkgs if not p.endswith('.race')]
     targets = ['./cmd/' + p for p in pkgs] if pkgs else ['./cmd/...']
     r = run(['go', 'build', '-tags', 'verif', '-o', BIN + '/'] + targets, cwd=HARN, env=GOENV, timeout=1500)
     out = r.stdout.decode(errors='replace')
+    for p in race:
+        # the same probe with the race detector: a data race in the real code ends the case (exit code 66)
+        r2 = run(['go', 'build', '-race', '-tags', 'verif', '-o', os.path.join(BIN, p + '.race'), './cmd/' + p],
+                 cwd=HARN, env=GOENV, timeout=1500)
+        out += r2.stdout.decode(errors='replace')
+        if r2.returncode != 0:
+            r = r2
     out = '\n'.join(l for l in out.splitlines() if 'tree-sitter' not in l and 'trigraph' not in l
                     and not re.match(r'^\s*(\d+\s*)?\|', l))
     return r.returncode == 0, out
